@@ -1,5 +1,6 @@
 import DaskModel.Model.NormalForm
 import DaskModel.Lemmas.NormalForm
+import DaskModel.Lemmas.Determinism
 import DaskModel.Generated.TokenDispatch
 /-!
 # C12 — tokens are deterministic and distinct values get distinct tokens
@@ -10,6 +11,9 @@ import DaskModel.Generated.TokenDispatch
 Full statement (for the modelled classes):
   (collision freedom)  `norm a = norm b → ObsEq a b`                       — `norm_injective`
   (determinism)        `ObsEq a b → WF a → WF b → norm a = norm b`          — `norm_deterministic`
+  together             `WF a → WF b → (norm a = norm b ↔ ObsEq a b)`        — `token_iff_obsEq`
+`WF`: dict keys / set elements are hashable plain data with pairwise different `(str, type name)`; the point excluded
+by it ({nan, nan}-like keys whose `str` and type coincide) is run on the real code by the harness.
 -/
 namespace Dask.C12
 open Dask.NF
@@ -154,5 +158,53 @@ theorem normPair_injective_mem : ∀ kvs : List (Val × Val), ∀ p ∈ kvs, ∀
       exact ⟨norm_injective k _ h.1, norm_injective v _ h.2⟩
     · exact normPair_injective_mem r p hp q h
 end
+
+/-! ## determinism -/
+
+/-- **Values no observer can tell apart get the same normal form** — in particular the insertion order of a dict,
+    the iteration order of a set (hence the hash seed) and the memory layout of an array do not matter. -/
+theorem norm_deterministic (a b : Val) (h : ObsEq a b) (ha : WF a) (hb : WF b) : norm a = norm b :=
+  NF.norm_deterministic a b h ha hb
+
+/-- for well-formed values equal tokens (normal forms) mean exactly observational equality -/
+theorem token_iff_obsEq (a b : Val) (ha : WF a) (hb : WF b) : norm a = norm b ↔ ObsEq a b :=
+  ⟨norm_injective a b, fun h => norm_deterministic a b h ha hb⟩
+
+/-- the argument tuple of `tokenize(*args)`: observably equal arguments give the same pre-image value -/
+theorem tokenize_args_deterministic (args args' : List Val) (h : ObsEqL args args') (ha : WFL args) (hb : WFL args') :
+    tokNFKw args [] = tokNFKw args' [] := by
+  simp only [tokNFKw, List.isEmpty_nil, if_true, NF.normL_deterministic args args' h ha hb]
+
+/-- the stable sort is canonical on pairwise different keys (what the `_sort_key` tie-break is for) -/
+theorem sort_is_canonical {α : Type} (l₁ l₂ : List (SortKey × α)) (hp : l₁.Perm l₂) (hn : (l₁.map Prod.fst).Nodup) :
+    ssort l₁ = ssort l₂ := ssort_canonical l₁ l₂ hp hn
+
+/-- non-vacuity: `{1: 'x', '1': 'y'}` and `{'1': 'y', 1: 'x'}` are well formed, observably equal and different lists -/
+example : norm (.dict [(.int 1, .str "x"), (.str "1", .str "y")]) = norm (.dict [(.str "1", .str "y"), (.int 1, .str "x")]) :=
+  norm_deterministic _ _ (.dict (ObsEqP.rfl' _) (List.Perm.swap _ _ _))
+    (by simp [WF, WFP, hashable]; decide) (by simp [WF, WFP, hashable]; decide)
+
+/-- without the type name the two keys `1` and `'1'` would tie: their `str` is the same -/
+example : pyStr (.int 1) = pyStr (.str "1") ∧ sortKey (.int 1) ≠ sortKey (.str "1") := by decide
+
+/-- strided views with the same logical elements: C order vs a transposed Fortran-ordered copy -/
+example : norm (.ndarray "dtype('int64')" [2, 3] [3, 1] 0 [0, 1, 2, 3, 4, 5])
+        = norm (.ndarray "dtype('int64')" [2, 3] [1, 2] 0 [0, 3, 1, 4, 2, 5]) :=
+  norm_deterministic _ _ (.ndarray (els := [0, 1, 2, 3, 4, 5]) (by decide) (by decide)) trivial trivial
+
+/-- …while the same memory read with the other layout is a different array and gets a different normal form
+    (DESIGN.md §6 #4, repaired by hashing the logical order) -/
+example : norm (.ndarray "dtype('int64')" [2, 3] [3, 1] 0 [0, 1, 2, 3, 4, 5])
+        ≠ norm (.ndarray "dtype('int64')" [2, 3] [1, 2] 0 [0, 1, 2, 3, 4, 5]) := by
+  intro h
+  have := norm_injective _ _ h
+  cases this with
+  | ndarray h1 h2 =>
+    have e1 : logical [2, 3] [3, 1] 0 [0, 1, 2, 3, 4, 5] = some [0, 1, 2, 3, 4, 5] := by decide
+    have e2 : logical [2, 3] [1, 2] 0 [0, 1, 2, 3, 4, 5] = some [0, 2, 4, 1, 3, 5] := by decide
+    rw [e1] at h1
+    rw [e2] at h2
+    rw [← h1] at h2
+    simp at h2
 
 end Dask.C12
